@@ -322,4 +322,156 @@ theorem endsWith_append (a suf : Str) : endsWith (a ++ suf) suf = true := by
   rw [List.reverse_append]
   exact isPrefix_append _ _
 
+/-! ### `complete`, `onReply`, `step` against the potential function -/
+
+theorem aGet_aSet_ne {α : Type} (l : List (Str × α)) (k k' : Str) (v : α) (h : k ≠ k') :
+    aGet (aSet l k v) k' = aGet l k' := by
+  unfold aSet
+  rw [← aGet_aDel_ne l k k' h]
+  induction (aDel l k) with
+  | nil => simp [aGet, h]
+  | cons hd t ih =>
+    obtain ⟨a, w⟩ := hd
+    by_cases ha : a = k' <;> simp [aGet, ha, ih]
+
+theorem hasKey_aSet_ne (p : List (Str × Req)) (k cid : Str) (v : Req) (h : k ≠ cid) :
+    hasKey (aSet p k v) cid = hasKey p cid := by
+  unfold hasKey; rw [aGet_aSet_ne _ _ _ _ h]
+
+theorem counts_ne (cid : Str) (c : Completion) (h : c.key ≠ cid) : counts cid c = false := by
+  unfold counts
+  have : (c.key == cid) = false := beq_false_of_ne h
+  rw [this]; rfl
+
+/-- a completion logged under another correlation id does not raise the potential of `cid` -/
+theorem phi_complete_other (cid : Str) (d : Disp) (c : Completion) (h : c.key ≠ cid) :
+    phi cid (complete d c) ≤ phi cid d := by
+  have h0 : phi cid { d with log := d.log ++ [c] } ≤ phi cid d := by
+    unfold phi
+    simp only [countKey_append, counts_ne cid c h]
+    simp
+  unfold complete
+  split
+  · exact h0
+  · exact Nat.le_trans (phi_cancelTask cid _ _ _) h0
+
+/-- what `on_response` leaves behind: the completion, then only cancellations; nothing becomes pending -/
+theorem complete_spec (d : Disp) (c : Completion) :
+    (∃ extra, (complete d c).log = d.log ++ c :: extra ∧ ∀ x ∈ extra, x.via = .cancel ∨ x.via = .waitCancel) ∧
+    (∀ k, aGet d.pending k = none → aGet (complete d c).pending k = none) := by
+  unfold complete
+  split
+  · exact ⟨⟨[], rfl, by simp⟩, fun _ h => h⟩
+  · constructor
+    · obtain ⟨extra, he, hv⟩ := logExt_cancelTask (Disp.fuel { d with log := d.log ++ [c] }) { d with log := d.log ++ [c] } c.owner
+      refine ⟨extra, ?_, hv⟩
+      rw [he]; simp
+    · intro k h
+      exact (cancelTask_shrinks _ { d with log := d.log ++ [c] } c.owner).1 k h
+
+theorem phi_onReply (q : Quirks) (cid : Str) (d : Disp) (k : Str) (cb : Option Bool) (body : Json) :
+    phi cid (onReply q d k cb body) ≤ phi cid d := by
+  unfold onReply
+  split
+  · exact Nat.le_refl _
+  · split
+    · exact Nat.le_refl _
+    · rename_i r hr
+      split
+      · exact phi_complete_resolve cid d k r _ rfl hr
+      · exact phi_complete_resolve cid d k r _ rfl hr
+
+theorem phi_onChildEnd (cid : Str) (d : Disp) (k : Str) (det : Detail) (i o : Json) :
+    phi cid (onChildEnd d k det i o) ≤ phi cid d := by
+  unfold onChildEnd
+  split
+  · exact Nat.le_refl _
+  · rename_i r hr
+    split
+    · exact phi_complete_resolve cid d k r _ rfl hr
+    · exact phi_complete_resolve cid d k r _ rfl hr
+
+theorem phi_onTimeout (cid : Str) (d : Disp) (k : Str) : phi cid (onTimeout d k) ≤ phi cid d := by
+  unfold onTimeout
+  split
+  · exact Nat.le_refl _
+  · rename_i r hr
+    exact phi_complete_resolve cid d k r _ rfl hr
+
+theorem phi_sendTask (cid : Str) (d : Disp) (tok : Str) (s : Bool) (body : Json) :
+    phi cid (sendTask Quirks.none d tok s body).2.1 ≤ phi cid d := by
+  unfold sendTask
+  split
+  · exact Nat.le_refl _
+  · split
+    · exact phi_onReply _ cid d _ _ _
+    · split
+      · rename_i h; cases h
+      · exact Nat.le_refl _
+
+theorem phi_launch (cid : Str) (d : Disp) (l : Launch) (si : Json) (h : corrId l ≠ cid) :
+    phi cid (launch d l si) ≤ phi cid d := by
+  unfold launch
+  split
+  · exact phi_complete_other cid d _ h
+  · split
+    · rename_i hf
+      have hk : l.childArn ≠ cid := by
+        intro e; apply h; unfold corrId; rw [hf]; simpa using e
+      exact phi_complete_other cid { d with started := d.started ++ [(l.childArn, true)] } _ hk
+    · unfold phi
+      simp only [hasKey_aSet_ne _ _ _ _ h]
+      exact Nat.le_refl _
+
+theorem phi_step (cid : Str) (d : Disp) (op : Op) (h : op.registers cid = false) :
+    phi cid (step Quirks.none d op) ≤ phi cid d := by
+  cases op with
+  | launch l si =>
+    have : corrId l ≠ cid := by simpa [Op.registers] using h
+    exact phi_launch cid d l si this
+  | rpc k e x =>
+    have : rpcCid k e ≠ cid := by simpa [Op.registers] using h
+    unfold step launchRpc phi
+    simp only [hasKey_aSet_ne _ _ _ _ this]
+    exact Nat.le_refl _
+  | wait e x => exact Nat.le_refl _
+  | reply k cb body => exact phi_onReply _ cid d k cb body
+  | childEnd k det i o => exact phi_onChildEnd cid d k det i o
+  | timeout k => exact phi_onTimeout cid d k
+  | cancel e => exact phi_cancelTask cid _ d e
+  | send tok s body => exact phi_sendTask cid d tok s body
+
+theorem phi_run (cid : Str) : ∀ (ops : List Op) (d : Disp), (∀ op ∈ ops, op.registers cid = false) →
+    phi cid (run Quirks.none d ops) ≤ phi cid d := by
+  intro ops
+  induction ops with
+  | nil => intro d _; exact Nat.le_refl _
+  | cons op t ih =>
+    intro d h
+    have h1 := phi_step cid d op (h op List.mem_cons_self)
+    have h2 := ih (step Quirks.none d op) (fun o ho => h o (List.mem_cons_of_mem _ ho))
+    exact Nat.le_trans h2 h1
+
+theorem length_pos_of_aGet {α : Type} (l : List (Str × α)) (k : Str) (v : α) (h : aGet l k = some v) :
+    1 ≤ l.length := by
+  cases l with
+  | nil => cases h
+  | cons _ _ => simp
+
+theorem complete_err_fresh (d : Disp) (o k : Str) (v : Via) (n : Str) (cz : Json)
+    (hfresh : aGet d.cancellers o = none) :
+    complete d ⟨o, k, v, .err n cz⟩ = { d with log := d.log ++ [⟨o, k, v, .err n cz⟩] } := by
+  unfold complete
+  exact cancelTask_none _ _ _ hfresh
+
+/-- the state in which the Task state's error path runs after the timeout of request `cid` -/
+def timedOut (d : Disp) (cid : Str) (r : Req) : Disp :=
+  { d with pending := aDel d.pending cid, log := d.log ++ [⟨r.owner, cid, .timeout, .err sTimeout (.str [])⟩] }
+
+theorem onTimeout_some (d : Disp) (cid : Str) (r : Req) (hp : aGet d.pending cid = some r) :
+    onTimeout d cid = cancelTask (d.cancellers.length + 1) (timedOut d cid r) r.owner := by
+  unfold onTimeout
+  rw [hp]
+  rfl
+
 end Asl.Tasks
